@@ -48,7 +48,8 @@ type kdScenario struct {
 	RC       bool     `json:"rc"`
 	Delay    int      `json:"delay"`
 	Retry    bool     `json:"retry"`
-	BoExp    bool     `json:"boexp,omitempty"` // retry with the library's own exponential backoff (WithRetry) instead of the harness's constant one
+	NegDelay bool     `json:"negdelay,omitempty"` // the release delay is passed as a negative duration
+	BoExp    bool     `json:"boexp,omitempty"`    // retry with the library's own exponential backoff (WithRetry) instead of the harness's constant one
 	NK       int      `json:"nk"`
 	NCtx     int      `json:"nctx"`
 	MaxOps   int      `json:"maxops"`
@@ -362,6 +363,7 @@ func genKeyed(x *sched.Exec) kdScenario {
 	}
 	sc.Retry = r.Intn(2) == 0
 	sc.BoExp = sc.Retry && r.Intn(3) == 0
+	sc.NegDelay = sc.Delay != 0 && r.Intn(3) == 0
 	seq := sc.Mode == "seq"
 	if seq {
 		sc.MaxOps = 8 + r.Intn(8)
@@ -601,7 +603,11 @@ func (d *kdDriver) Run(x *sched.Exec, raw json.RawMessage) json.RawMessage {
 	}
 	var opts []keyed.Option[int, int]
 	if sc.Delay != 0 {
-		opts = append(opts, keyed.WithReleaseDelay[int, int](time.Duration(sc.Delay)*kdUnit))
+		dl := time.Duration(sc.Delay) * kdUnit
+		if sc.NegDelay {
+			dl = -dl // WithReleaseDelay documents nothing about the sign; the library takes the absolute value
+		}
+		opts = append(opts, keyed.WithReleaseDelay[int, int](dl))
 	}
 	if sc.Retry && sc.BoExp {
 		// the library's own exponential backoff: 10, 20, 40, 80, 80, ... (one per key)
